@@ -18,11 +18,14 @@ import (
 	"encoding/hex"
 	"encoding/json"
 	"fmt"
+	"os"
+	"path/filepath"
 	"sort"
 	"strings"
 	"testing"
 	"time"
 
+	wasmkeeper "github.com/CosmWasm/wasmd/x/wasm/keeper"
 	sdk "github.com/cosmos/cosmos-sdk/types"
 	authtypes "github.com/cosmos/cosmos-sdk/x/auth/types"
 	banktypes "github.com/cosmos/cosmos-sdk/x/bank/types"
@@ -74,6 +77,7 @@ type setup struct {
 	Fee     string `json:"fee"`     // tokenfactory DenomCreationFee in uosmo ("" / "0": none)
 	Allowed []int  `json:"allowed"` // lockup ForceUnlockAllowedAddresses (account indices)
 	Unpool  []int  `json:"unpool"`  // superfluid UnpoolAllowedPools: 1 = the superfluid balancer pool, 2 = the plain one
+	Wasm    bool   `json:"wasm"`    // upload and instantiate x/tokenfactory/keeper/testdata/no100.wasm (a before-send hook contract)
 }
 
 type cs struct {
@@ -139,6 +143,7 @@ type world struct {
 	vals  []sdk.ValAddress
 	pools []uint64
 	bond  string
+	contract int
 }
 
 const (
@@ -294,6 +299,27 @@ func newWorld(t *testing.T, su setup) *world {
 		}
 	}
 
+	// a cosmwasm contract that answers the before-send sudo calls (account "contract"; a plain address when not uploaded)
+	contract := sdk.AccAddress([]byte("c20-not-a-contract--"))
+	w.contract = -1
+	if su.Wasm {
+		repo := os.Getenv("VERIF_REPO")
+		if repo == "" {
+			repo = "/repo"
+		}
+		code, err := os.ReadFile(filepath.Join(repo, "x/tokenfactory/keeper/testdata/no100.wasm"))
+		must(err)
+		ck := wasmkeeper.NewGovPermissionKeeper(app.WasmKeeper)
+		codeID, _, err := ck.Create(ctx, w.addrs[3], code, nil)
+		must(err)
+		contract, _, err = ck.Instantiate(ctx, codeID, w.addrs[3], w.addrs[3], []byte("{}"), "", sdk.NewCoins())
+		must(err)
+		w.contract = len(w.addrs)
+	}
+	w.add("contract", contract)
+	// the one module account the bank lets receive funds (app.allowedReceivingModAcc)
+	w.add("mod:protorev", app.AccountKeeper.GetModuleAddress("protorev"))
+
 	// parameters of the case
 	allowed := []string{}
 	for _, i := range su.Allowed {
@@ -335,6 +361,9 @@ func (w *world) static(su setup) static {
 	st.Unbonding = int64(sp.UnbondingTime)
 	for _, a := range app.SuperfluidKeeper.GetAllSuperfluidAssets(w.ctx) {
 		st.SfAssets = append(st.SfAssets, a.Denom)
+	}
+	if w.contract >= 0 {
+		st.Contracts = append(st.Contracts, w.contract)
 	}
 	st.Fee = app.TokenFactoryKeeper.GetParams(w.ctx).DenomCreationFee.AmountOf("uosmo").String()
 	st.Unpool = app.SuperfluidKeeper.GetUnpoolAllowedPools(w.ctx)
